@@ -6,6 +6,7 @@ import (
 	"strings"
 	"time"
 
+	"verifharness/rep"
 	"verifharness/tlc"
 )
 
@@ -19,7 +20,7 @@ var verdictRe = regexp.MustCompile(`^"VERDICT\|([^|]*)\|(.*)"$`)
 func init() { _ = verdictRe }
 var violRe = regexp.MustCompile(`\[prop \|-> \\?"([^"\\]+)\\?", sig \|-> \\?"([^"\\]+)\\?"\]`)
 
-const SpecDir = "/verif/specs/exec"
+var SpecDir = rep.Root + "/specs/exec"
 
 type PropsVerdicts struct {
 	ByTrace map[string][]Viol
